@@ -88,6 +88,75 @@ theorem unread_fields :
        "ContentSchema", "Format", "Extra", "PropertyOrder"] := by
   decide
 
+/-! ### … and conversely every field of the regenerated list matters to the model
+
+For each of the 44 names a one-object schema (plus a `true` schema at 1 and a `false` schema at 2) and an instance on
+which the model answers "invalid", and answers "valid" once the field is reset to its zero value: the model really
+reads every field `(*state).validate` selects. -/
+
+def witnessEnv (d : Draft) (n : Node) : VEnv :=
+  { st := #[n, {}, { not := some 3 }, {}], draft := d,
+    infos := [(0, { base := some 0, resolvedRef := some 2, resolvedDynamicRef := some 2 }), (1, { base := some 0 }),
+              (2, { base := some 0 }), (3, { base := some 0 })],
+    reMatch := fun re _ => re == "p", hash := fun _ => 0 }
+
+def readWitnesses : List (String × Draft × Node × Json) := [
+  ("Ref", .d2020, { ref := "x" }, .null),
+  ("DynamicRef", .d2020, { dynamicRef := "x" }, .null),
+  ("Type", .d2020, { type := "string" }, .null),
+  ("Types", .d2020, { types := some ["string"] }, .null),
+  ("Enum", .d2020, { enum := some [] }, .null),
+  ("Const", .d2020, { const := some (.num 1) }, .null),
+  ("MultipleOf", .d2020, { multipleOf := some 2 }, .num 3),
+  ("Minimum", .d2020, { minimum := some 5 }, .num 3),
+  ("Maximum", .d2020, { maximum := some 1 }, .num 3),
+  ("ExclusiveMinimum", .d2020, { exclusiveMinimum := some 3 }, .num 3),
+  ("ExclusiveMaximum", .d2020, { exclusiveMaximum := some 3 }, .num 3),
+  ("MinLength", .d2020, { minLength := some 2 }, .str "a"),
+  ("MaxLength", .d2020, { maxLength := some 0 }, .str "a"),
+  ("Pattern", .d2020, { pattern := "q" }, .str "a"),
+  ("PrefixItems", .d2020, { prefixItems := some [2] }, .arr [.null]),
+  ("Items", .d2020, { items := some 2 }, .arr [.null]),
+  ("ItemsArray", .d7, { itemsArray := some [2] }, .arr [.null]),
+  ("MinItems", .d2020, { minItems := some 1 }, .arr []),
+  ("MaxItems", .d2020, { maxItems := some 0 }, .arr [.null]),
+  ("AdditionalItems", .d7, { itemsArray := some [], additionalItems := some 2 }, .arr [.null]),
+  ("UniqueItems", .d2020, { uniqueItems := true }, .arr [.null, .null]),
+  ("Contains", .d2020, { contains := some 2 }, .arr [.null]),
+  ("MinContains", .d2020, { contains := some 1, minContains := some 2 }, .arr [.null]),
+  ("MaxContains", .d2020, { contains := some 1, maxContains := some 0 }, .arr [.null]),
+  ("UnevaluatedItems", .d2020, { unevaluatedItems := some 2 }, .arr [.null]),
+  ("MinProperties", .d2020, { minProperties := some 1 }, .obj []),
+  ("MaxProperties", .d2020, { maxProperties := some 0 }, .obj [("a", .null)]),
+  ("Required", .d2020, { required := some ["b"] }, .obj [("a", .null)]),
+  ("DependentRequired", .d2020, { dependentRequired := some [("a", some ["b"])] }, .obj [("a", .null)]),
+  ("Properties", .d2020, { properties := some [("a", 2)] }, .obj [("a", .null)]),
+  ("PatternProperties", .d2020, { patternProperties := some [("p", 2)] }, .obj [("a", .null)]),
+  ("AdditionalProperties", .d2020, { additionalProperties := some 2 }, .obj [("a", .null)]),
+  ("PropertyNames", .d2020, { propertyNames := some 2 }, .obj [("a", .null)]),
+  ("UnevaluatedProperties", .d2020, { unevaluatedProperties := some 2 }, .obj [("a", .null)]),
+  ("AllOf", .d2020, { allOf := some [2] }, .null),
+  ("AnyOf", .d2020, { anyOf := some [2] }, .null),
+  ("OneOf", .d2020, { oneOf := some [2] }, .null),
+  ("Not", .d2020, { not := some 1 }, .null),
+  ("If", .d2020, { if_ := some 2, else_ := some 2 }, .null),
+  ("Then", .d2020, { if_ := some 1, then_ := some 2 }, .null),
+  ("Else", .d2020, { if_ := some 2, else_ := some 2 }, .null),
+  ("DependentSchemas", .d2020, { dependentSchemas := some [("a", 2)] }, .obj [("a", .null)]),
+  ("DependencySchemas", .d7, { dependencySchemas := some [("a", 2)] }, .obj [("a", .null)]),
+  ("DependencyStrings", .d7, { dependencyStrings := some [("a", some ["b"])] }, .obj [("a", .null)])]
+
+/-- the witnesses cover exactly `modelReads` -/
+theorem readWitnesses_cover : readWitnesses.map (·.1) = modelReads := by decide
+
+/-- every field of `modelReads` (= `Generated.validateReads`) is read: resetting it flips a verdict -/
+theorem every_read_field_matters :
+    readWitnesses.all (fun w =>
+      (Go.validateFuel (witnessEnv w.2.1 w.2.2.1) 3 [] (GoVal.ofJson w.2.2.2) 0).verdict == some false &&
+      (Go.validateFuel (witnessEnv w.2.1 (Inv.eraseField w.1 w.2.2.1)) 3 [] (GoVal.ofJson w.2.2.2) 0).verdict
+        == some true) = true := by
+  with_unfolding_all decide
+
 /-! ## unknown keywords -/
 
 /-- unknown keywords never make Unmarshal fail: one more member with a key outside `Go.knownKeys` -/
@@ -120,6 +189,22 @@ theorem unmarshal_unknown_fail (rec : URec) (kvs : List (String × Json)) (k : S
   cases he : Go.setFields rec kvs Go.emptyNode st with
   | ok p => exact absurd he (h p)
   | _ => rfl
+
+/-- the unknown member at ANY position of the object: with it and without it, Unmarshal fails the same way, or succeeds
+    on both with the same store and schema objects that differ at most in `Extra` (later unknown members are appended
+    to a different `Extra`, later keyword members never read it) -/
+theorem unmarshal_unknown_anywhere (rec : URec) (l1 l2 : List (String × Json)) (k : String) (v : Json) (st : Store)
+    (hk : Go.knownKeys.contains k = false) :
+    (match Go.setFields rec (l1 ++ (k, v) :: l2) Go.emptyNode st, Go.setFields rec (l1 ++ l2) Go.emptyNode st with
+     | .ok (a, s), .ok (b, t) => (∃ e, a = { b with extra := e }) ∧ s = t
+     | .fuel, .fuel => True
+     | .panic, .panic => True
+     | .err, .err => True
+     | _, _ => False) := by
+  have h := Inv.setFields_unknown_anywhere rec l1 l2 k v Go.emptyNode st hk
+  generalize Go.setFields rec (l1 ++ (k, v) :: l2) Go.emptyNode st = r1 at h ⊢
+  generalize Go.setFields rec (l1 ++ l2) Go.emptyNode st = r2 at h ⊢
+  cases r1 <;> cases r2 <;> first | exact h | exact False.elim h
 
 /-- hence the evaluator cannot tell the two schema objects apart -/
 theorem unknown_keyword_not_read (n : Node) (k : String) (v : Json) :
@@ -207,6 +292,10 @@ example :
 example : ∃ r, Go.setFields (Go.unmarshalFuel 3) ([("type", .str "string"), ("minLength", .num 2)] ++
     [("x-vendor", .null)]) Go.emptyNode #[] = .ok r :=
   (unmarshal_unknown_ok (Go.unmarshalFuel 3) _ "x-vendor" .null #[] (by decide)).mpr ⟨_, by rfl⟩
+/-- the unknown member in the middle: `{"type":"string","x-vendor":1,"minLength":2}` -/
+example :
+    Go.setFields (Go.unmarshalFuel 3) ([("type", .str "string")] ++ ("x-vendor", .num 1) :: [("minLength", .num 2)])
+      Go.emptyNode #[] = .ok ({ type := "string", minLength := some 2, extra := some [("x-vendor", .num 1)] }, #[]) := by rfl
 /-- a failing document keeps failing with the same outcome -/
 example : Go.setFields (Go.unmarshalFuel 3) ([("type", .num 1)] ++ [("x-vendor", .null)]) Go.emptyNode #[] = .err := by
   rfl
